@@ -64,8 +64,19 @@ def profile_bigdir(draw):
 @st.composite
 def profile_xattr_sets(draw):
     n = draw(st.sampled_from([511, 512, 513, 1024, 1025]))
-    shared = draw(st.booleans())
+    variant = draw(st.sampled_from(["plain", "shared", "pairs"]))
+    shared = variant == "shared"
     nodes = []
+    if variant == "pairs":
+        # files 2i and 2i+1 share a value under a long key, and differ in a second attribute: each shared value is stored in line
+        # at its first use, somewhere in a key/value area of many metadata blocks, and referenced from the second set - so some
+        # first uses have their key record across (or ending on) a metadata block boundary
+        klen = draw(st.integers(150, 230))
+        key = b"user." + b"k" * klen
+        for i in range(draw(st.sampled_from([300, 420, 600]))):
+            xa = {key: b"shared value %06d" % (i // 2), b"user.u": b"u%d" % i}
+            nodes.append(_file(b"f%04d" % i, ("lit", b""), xattrs=xa))
+        return nodes
     for i in range(n):
         xa = {b"user.k": b"v%d" % i}
         if shared:
@@ -162,7 +173,7 @@ def cases(draw, tier="quick", force_sel=None):
     o = draw(packlib.pack_opts(mode=mode))
     case = {"mode": mode, "opts": o, "profile": None}
     if sel >= 88:
-        prof = draw(st.sampled_from(["bigdir", "bigdir", "xattr_sets", "meta", "meta", "unrep", "unrep"]))
+        prof = draw(st.sampled_from(["bigdir", "bigdir", "xattr_sets", "xattr_sets", "meta", "meta", "unrep", "unrep"]))
         case["profile"] = prof
         o["B"] = 4096
         if prof == "bigdir":
